@@ -29,7 +29,8 @@ CHECKS = {
         'engine': 'asyncprims',
         'technique': DST + ': seeded arrival times of concurrent entrants on a virtual clock (2^-20 s grid, dyadic '
                            'window lengths, integer epoch: the limiter\'s float arithmetic is exact) against the real '
-                           'RateLimiter, bodies that raise, cancellation of entries (task.cancel) waiting or in their '
+                           'RateLimiter -- 1 to 3 limiter instances with rate limits of their own alive in one '
+                           'process, used concurrently and judged separately --, bodies that raise, cancellation of entries (task.cancel) waiting or in their '
                            'body, event-loop stalls that make sleeps overshoot (loop.stall); sliding-window count '
                            'oracle at every admission, blocked-implies-window-full oracle at every instant before the '
                            'clock advances',
@@ -38,14 +39,21 @@ CHECKS = {
                       'idle windows) of up to 8 concurrent tasks entering the real rate limiter under a controlled '
                       'clock. Every admission is checked against the half-open window (t - window, t] on exact loop '
                       'times; at every simulated instant a suspended entrant implies a full trailing window, so late '
-                      'admission, lost wake-ups and spinning are violations. Samples schedules; not a proof.',
+                      'admission, lost wake-ups and spinning are violations. Half of the runs keep two or three limiters '
+                      'with different counts and windows alive and interleave their entries; each instance is checked '
+                      'against its own admissions only, so state shared between instances shows as over-admission or as '
+                      'a blocked entrant. Samples schedules; not a proof.',
         'level_note': 'Trusts CPython asyncio sleep/Task semantics on the custom loop; window lengths are multiples of '
-                      '1/1024 s (float rounding for other lengths is not explored); count <= 5, <= 8 actors x <= 6 entries, <= 3 loop stalls of <= 2 windows per run.',
+                      '1/1024 s (float rounding for other lengths is not explored); <= 3 limiters, count <= 5, <= 8 actors x '
+                      '<= 6 entries, <= 3 loop stalls of <= 2 windows per run. The limiter module is re-executed at the '
+                      'start of every run so that no state of the class or module survives from one run to the next.',
         'scenarios': [{'module': 'worlds.prims.ratelimit', 'quick': 100000, 'thorough': 2000000}],
         'expected_probes': ['limiter_blocked', 'several_blocked', 'admitted_at_exact_expiry',
                             'later_arrival_admitted_first', 'window_full_at_admission', 'body_raised',
                             'cancel_blocked_in_aenter', 'cancel_in_body', 'stall_while_entrant_blocked',
-                            'sleep_overshoots'],
+                            'sleep_overshoots', 'several_limiters', 'limiters_with_different_windows',
+                            'admission_while_other_limiter_full', 'admission_while_other_limiter_blocks',
+                            'other_limiters_entry_outlives_this_window'],
     },
     'C26': {
         'level': 'exploration',
